@@ -116,6 +116,19 @@ def gen_cases(rng, tier, scale):
                 cases.append(rcase(f'{grp}m', W + '{{> p}}\nZ\n', DATA, partials=parts, entry=entry, kind='main', grp=grp, W=W, where='first', pi=False, tags=['first-fixed']))
                 ops = [f'regs {x(n_)} {x(s_)}' for n_, s_ in parts.items()] + [f'r 0 {x("p")} {jtok(DATA)} -1']
                 cases.append({'line': f'{grp}p ' + ' ; '.join(ops), 'kind': 'alone', 'grp': grp, 'tpl': parts['p'], 'tags': ['alone']})
+    # the block body of a block-form call rendered through an INDENTED standalone {{> @partial-block}} of the layout: the body's lines
+    # get the indentation of that call (added to the indentation the layout itself was called with); judged against the model
+    PBL = [('{{#> lay}}\nb1\n{{ml}}\n{{/lay}}\nZ\n', {'lay': 'head\n  {{> @partial-block}}\nfoot\n'}),
+           ('A\n\t{{#> lay}}\nb1 {{one}}\n{{ml3}}\n{{/lay}}\nZ\n', {'lay': 'head\n  {{> @partial-block}}\nfoot\n'}),
+           ('{{#each l}}\n    {{> row}}\n{{/each}}\n', {'row': '{{#> lay}}\nr {{one}}\n{{ml}}\n{{/lay}}\n', 'lay': '<\n\t{{> @partial-block}}\n>\n'}),
+           ('{{#> lay}}x{{ml}}y{{/lay}}|\n', {'lay': ' {{> @partial-block}}\n\n  {{> @partial-block}}\n'}),
+           ('{{#> lay}}\n{{#*inline "s"}}in\n{{ml}}\n{{/inline}}\n  {{> s}}\nb\n{{/lay}}\n', {'lay': 'h\n   {{> @partial-block}}\n'})]
+    for k, (main, parts) in enumerate(PBL):
+        for pi in (False, True):
+            for entry in (0, 2, 4, 6, 7):
+                grp = f'pb{k}{int(pi)}e{entry}'
+                cases.append(rcase(f'{grp}m', main, DATA, pre=(['pi 1'] if pi else []), partials=parts, entry=entry, kind='main', grp=grp, W='  ', where='top', pi=pi,
+                                   tags=['indented-partial-block'] + (['prevent_indent'] if pi else [])))
     return cases
 
 def norm(s):
